@@ -10,7 +10,7 @@
 (***************************************************************************)
 EXTENDS DKGProps, Json, SequencesExt, FiniteSetsExt
 
-CONSTANTS MaxRej, Emit, AccuseAny, Windows, Partial, MaxReload
+CONSTANTS MaxRej, Emit, AccuseAny, Windows, Partial, MaxReload, MaxLag
 
 VARIABLES st, g, last, hist
 vars == <<st, g, last, hist>>
@@ -32,6 +32,7 @@ AlphabetSet ==
       : b \in Byz} \cup
     {Op("post", k, BlankVals) : k \in Honest} \cup
     (IF MaxReload > 0 THEN {Op("reload", k, BlankVals) : k \in Honest} ELSE {}) \cup
+    (IF MaxLag > 0 THEN {Op("lag", k, BlankVals) : k \in Honest} ELSE {}) \cup
     {Op("end", 0, BlankVals)}
 
 Alphabet == SetToSeq(AlphabetSet)
@@ -44,7 +45,7 @@ Init == st = InitState /\ g = GhostInit /\ last = 0 /\ hist = <<>>
 
 Step(i) ==
     LET o == Alphabet[i] IN
-    /\ OpEnabled(st, o, MaxRej, Windows, MaxReload)
+    /\ OpEnabled(st, o, MaxRej, Windows, MaxReload, MaxLag)
     /\ LET x == ApplyOp(st, o) IN
        /\ st' = x.st
        /\ g' = GhostNext(g, st, o, x.out)
